@@ -177,9 +177,19 @@ ClosingFrame(dir) ==
   \E p \in {1, 256}, t \in Tags, e \in {0, 1} :
      Send(dir, IF "EmptyNotice" \in Dev THEN 0 ELSE FrameHdr + p + (IF e = 0 THEN t ELSE MaxExtra))
 
+\* stream.go Stream.ReadFrom: the relayed source's Read returned (0, nil) (an empty datagram of a UDP-style
+\* proxy target or local application).  obfs.go refuses an empty payload and obfuscateAndSend returns before
+\* switchboard.send: NOTHING reaches the wire.  Deviation EmptyFrameSent: the send goes ahead with the
+\* zero bytes obfuscate produced, i.e. TLSConn.Write(empty) = the record 17 03 03 00 00.
+RelayEmptyRead(dir) ==
+  IF "EmptyFrameSent" \in Dev THEN Send(dir, 0)
+  ELSE /\ Ready(dir) /\ nfr[dir] < MaxFrames
+       /\ nfr' = [nfr EXCEPT ![dir] = @ + 1]
+       /\ UNCHANGED <<obs, bad, conf, cst, sst>>
+
 SenderNext ==
   \/ ClientHello \/ ReplySH \/ ReplyCCS \/ ReplyApp
-  \/ \E dir \in {"c2s", "s2c"} : DataFrame(dir) \/ ClosingFrame(dir)
+  \/ \E dir \in {"c2s", "s2c"} : DataFrame(dir) \/ ClosingFrame(dir) \/ RelayEmptyRead(dir)
 
 Init == SenderInit
 Next == SenderNext
